@@ -289,8 +289,12 @@ def dateutil_direct(d):
     if k not in _DU_CACHE:
         from io import StringIO
         import dateutil.tz
+        # the definition proper: extra properties (X-..., TZURL, COMMENT) say nothing about offsets, and
+        # dateutil rejects unknown ones outright
+        core = dict(d, obs=[{k2: v for k2, v in ob.items() if k2 != "extras"} for ob in d["obs"]])
+        core.pop("extras", None)
         try:
-            _DU_CACHE[k] = dateutil.tz.tzical(StringIO(zonegen.vtimezone_text(d))).get()
+            _DU_CACHE[k] = dateutil.tz.tzical(StringIO(zonegen.vtimezone_text(core))).get()
         except Exception:
             _DU_CACHE[k] = None
     return _DU_CACHE[k]
